@@ -134,7 +134,6 @@ func main() {
 		}
 	}()
 
-
 	switch {
 	case *replay != "":
 		os.Exit(doReplay(s, env, *replay))
